@@ -105,7 +105,8 @@ PLAN["C09"] = dict(
         "contextlib.contextmanager drives the generator: the with-body's exception is thrown at the yield",
         "NOT under contract (trusted, outside this check): String.__set__ / Char (ctypes store and memset), ArrayField.__setitem__/__set__ (ctypes slice store after validation), Struct / StructArray "
         "class checks, Byte.__set__; their validate_* helpers that are under contract are the numeric cores the property's boundary cases live in"],
-    explanation="each validator function is verified once per kind of python value (int, bool, float, str, None, list of ints/floats): validate_one / validate_many raise exactly for values outside "
+    explanation="each validator function is verified once per kind of python value (int, bool, float, str, None, list of ints/floats, ctypes array, list of ARBITRARY python values - "
+                "ints, floats and other objects mixed - for the integer, byte and double array checks): validate_one / validate_many raise exactly for values outside "
                 "the field's domain (range for the 8 integer classes, overflow-to-infinity after rounding for Float/Double incl. next to NaN, length/ASCII for strings); __set__ stores only after "
                 "validation (refusal leaves the message untouched: frame) and reads back the assigned value; disable_message_validation restores the flag on both continuations of its yield")
 PLAN["C11"] = dict(
